@@ -1,5 +1,6 @@
 import McpModel.Base.Proto
 import McpModel.Resume.Model
+import McpModel.Resume.Monitor
 /-!
 Driver for E5 (C08, C10).
 
@@ -33,28 +34,10 @@ structure DSess where
   names     : List SId := []        -- stream ids in order of first appearance: printed name of `names[i]` is t(i+1)
   reqIds    : List ReqId := []      -- every request id ever POSTed on this session (to enumerate `requestStreams`)
 
-structure MExch where
-  k       : Nat
-  sess    : String
-  ids     : List Nat := []          -- request ids of the POST that opened it
-  isGet   : Bool := false
-  isListen : Bool := false
-  stream  : Option String := none   -- canonical stream it serves (learned from ids / header / snapshot)
-  «from»  : Nat := 0
-  nsent   : Nat := 0                -- id-carrying events written (delivered or lost)
-  nrecv   : Nat := 0
-  failing : Bool := false
-  sse     : Bool := false
-  fresh   : Bool := true            -- created by the current op
-  newProto : Bool := false          -- ≥ 2026-07-28: outside C08
-
-structure Mon where
-  exs    : List MExch := []
-  logs   : List ((String × String) × List String) := []    -- ground truth: appended payloads per (session, stream)
-  idmap  : List ((String × String) × String) := []         -- (session, event id) ↦ payload
-  posts  : List ((String × String) × Nat) := []            -- (session, stream) ↦ POST exchange that created it
-  gone   : List String := []                                -- sessions that were deleted / killed
-  viol   : Option String := none
+structure DMon where
+  core   : Mon.MonS String String := { store := false, jsonMode := false }   -- the typed monitor core
+  gone   : List String := []                                                -- sessions that were deleted / killed
+  extra10 : Option String := none                                           -- op-level clause of the last record
 
 structure DState where
   cfg    : Option Cfg := none
@@ -62,7 +45,7 @@ structure DState where
   jsonM  : Bool := false
   sess   : List DSess := []
   nex    : Nat := 0
-  mon    : Mon := {}
+  mon    : DMon := {}
 
 def getSess (d : DState) (n : String) : Option DSess := d.sess.find? (·.name == n)
 
@@ -482,20 +465,15 @@ def modelOp (d : DState) (toks : List String) : Option OpOut :=
     | _ => none
   | _ => none
 
-/-! ## monitor side (on the implementation's observation only) -/
+/-! ## monitor side (on the implementation's observation only)
 
-def Mon.fail (m : Mon) (c : String) : Mon := if m.viol.isSome then m else { m with viol := some c }
+The property monitors are the typed core `Resume.Mon.step` (`McpModel.Resume.Monitor`; its behaviour on the
+model's own observations and the meaning of every clause are theorems of `McpModel.Resume.Bridge*`).  What
+follows is the string layer: the harness' tokens are parsed into an `Mon.Obs String String` — session names
+and payloads stay strings, stream names `t<n>` and exchange names `x<k>` become numbers. -/
 
-def Mon.getEx (m : Mon) (k : Nat) : Option MExch := m.exs.find? (·.k == k)
-def Mon.putEx (m : Mon) (e : MExch) : Mon :=
-  if m.exs.any (·.k == e.k) then { m with exs := m.exs.map fun x => if x.k == e.k then e else x }
-  else { m with exs := m.exs ++ [e] }
-
-def Mon.log (m : Mon) (sess stream : String) : List String := (m.logs.lookup (sess, stream)).getD []
-
-def Mon.append (m : Mon) (sess stream p : String) : Mon :=
-  let cur := m.log sess stream
-  { m with logs := (m.logs.filter (·.1 != (sess, stream))) ++ [((sess, stream), cur ++ [p])] }
+/-- `t3` ↦ 3 -/
+def parseT (t : String) : Option Nat := if t.startsWith "t" then (t.drop 1).toString.toNat? else none
 
 /-- split `t3_12` into stream name and index -/
 def splitEvId (id : String) : Option (String × Nat) :=
@@ -503,314 +481,141 @@ def splitEvId (id : String) : Option (String × Nat) :=
   | [t, i] => i.toNat?.map fun n => (t, n)
   | _ => none
 
-/-- provenance of a payload tag: `R.<id>.<sess>.<req>.x<post>`, `N|C|X.<sess>.<req>.x<post>.<c|d>.<serial>` -/
-inductive Prov where
-  | resp (id : String) (sess : String) (req : String) (post : Nat)
-  | initResp (id : String)
-  | inReq (sess : String) (req : String) (post : Nat)      -- notification / call issued with the request's context
-  | detached (sess : String)
-  | server                                                  -- list_changed / acknowledged: server-initiated
-  | other
+def parseEvId (id : String) : Mon.EvId :=
+  if id == "-" then .none else
+  match splitEvId id with
+  | some (t, i) => match parseT t with
+    | some n => .ok n i
+    | none => .bad
+  | none => .bad
 
-def provOf (p : String) : Prov :=
+/-- provenance of a payload tag: `R.<id>.<sess>.<req>.x<post>`, `N|C|X.<sess>.<req>.x<post>.<c|d>.<serial>` -/
+def provOf (p : String) : Mon.Prov String :=
   match p.splitOn "." with
-  | ["R", id, "init"] => .initResp id
-  | ["R", id, s, r, x] => .resp id s r (parseX x)
-  | [k, s, r, x, "c", _] => if k == "N" || k == "C" || k == "X" then .inReq s r (parseX x) else .other
+  | ["R", id, "init"] => match id.toNat? with
+    | some i => .initResp i
+    | none => .other
+  | ["R", id, s, r, x] => match id.toNat?, r.toNat? with
+    | some i, some q => .resp i s q (parseX x)
+    | _, _ => .other
+  | [k, s, r, x, "c", _] => if k == "N" || k == "C" || k == "X" then .inReq s (r.toNat?.getD 0) (parseX x) else .other
   | [k, s, _, _, "d", _] => if k == "N" || k == "C" || k == "X" then .detached s else .other
   | "U" :: _ => .server
   | _ => .other
 
-/-- C10: may a message with provenance `pv` appear on (session `sess`, stream `stream`, exchange `k`)?
-`stream` is the canonical stream the exchange serves when known. -/
-def routeOK (m : Mon) (jsonMode : Bool) (pv : Prov) (sess : String) (stream : Option String) (k : Option Nat) : Option String :=
-  let ownExchange (ps : String) (post : Nat) : Bool :=
-    ps == sess &&
-    (k == some post ||
-      match stream with
-      | some t => (m.posts.lookup (sess, t)) == some post
-      | none => false)
-  let standaloneOrListen : Bool :=
-    stream == some "t0" ||
-      (match k with
-       | some k => ((m.getEx k).map (·.isListen)).getD false
-       | none => false) ||
-      (match stream with
-       | some t => match m.posts.lookup (sess, t) with
-         | some p => ((m.getEx p).map (·.isListen)).getD false
-         | none => false
-       | none => false)
-  match pv with
-  | .resp id ps req post =>
-    if id != req then some "C10: response carries another id than the request it answers"
-    else if ownExchange ps post then none
-    else if ps != sess then some "C10: response delivered to another session"
-    else some "C10: response delivered on an exchange or stream that does not belong to its request"
-  | .initResp id =>
-    let ok : Bool := match k, stream with
-      | some k, _ => match m.getEx k with
-        | some e => e.ids.contains (id.toNat?.getD 0) ||
-            (match e.stream with
-             | some t => match m.posts.lookup (sess, t) with
-               | some p => ((m.getEx p).map (fun pe => pe.ids.contains (id.toNat?.getD 0))).getD false
-               | none => false
-             | none => false)
-        | none => false
-      | none, some t => match m.posts.lookup (sess, t) with
-        | some p => ((m.getEx p).map (fun pe => pe.ids.contains (id.toNat?.getD 0))).getD false
-        | none => false
-      | none, none => false
-    if ok then none else some "C10: initialize response delivered on an exchange that does not belong to its request"
-  | .inReq ps req post =>
-    if ps != sess then some "C10: in-request message delivered to another session"
-    else if jsonMode then
-      if standaloneOrListen then none else some "C10: JSON mode: in-request message not on the standalone/listen stream"
-    else if ownExchange ps post then none
-    else
-      -- the one shape that needs a protocol-violating client: the request id was reused for a later
-      -- request of the same session and the straggler of the finished request lands on the new stream
-      let reusedId : Bool := match stream with
-        | some t => match m.posts.lookup (sess, t) with
-          | some p => p != post && ((m.getEx p).map (fun pe => pe.ids.contains (req.toNat?.getD 0))).getD false
-          | none => false
-        | none => false
-      if reusedId then some "C10: straggler of a finished request delivered on the stream of a later request that reuses its id (client reused a request id within the session)"
-      else some "C10: in-request message routed to a stream that does not belong to its request"
-  | .detached ps =>
-    if ps != sess then some "C10: detached message delivered to another session"
-    else if standaloneOrListen then none
-    else some "C10: detached message routed to a request stream instead of the standalone/listen stream"
-  | .server =>
-    if standaloneOrListen then none else some "C10: server-initiated notification routed to a request stream"
-  | .other => some "C10: unrecognised payload on the wire"
+/-- one write `K`, `Z`, `P/<id>`, `M/<id>/<payload>`, `J/<p1>,<p2>` -/
+def parseOut (ev : String) : Mon.MOut String :=
+  match ev.splitOn "/" with
+  | ["K"] => .comment
+  | ["Z"] => .close
+  | "J" :: rest => .json (("/".intercalate rest).splitOn ",")
+  | kind :: id :: rest => if kind == "P" then .prime (parseEvId id) else .message (parseEvId id) ("/".intercalate rest)
+  | _ => .junk
 
-/-- one delivered (`lost = false`) or lost event on exchange k -/
-def Mon.onEvent (m : Mon) (store jsonMode : Bool) (k : Nat) (lost : Bool) (ev : String) : Mon :=
-  match m.getEx k with
-  | none => m.fail "C10: bytes written to an exchange that was never opened"
-  | some e =>
-    let parts := ev.splitOn "/"
-    match parts with
-    | ["K"] | ["Z"] => m
-    | "J" :: rest =>
-      -- JSON body: responses of this POST only
-      let ps := ("/".intercalate rest).splitOn ","
-      ps.foldl (fun (m : Mon) p =>
-        match routeOK m jsonMode (provOf p) e.sess e.stream (some k) with
-        | some c => m.fail c
-        | none => match provOf p with
-          | .resp .. | .initResp .. => m
-          | _ => m.fail "C10: a non-response was put into an application/json response") m
-    | kind :: id :: rest =>
-      let p := if kind == "P" then "-" else "/".intercalate rest
-      -- C10 first (works without a store)
-      let m := if kind == "P" then m else
-        match routeOK m jsonMode (provOf p) e.sess e.stream (some k) with
-        | some c => m.fail c
-        | none => m
-      if id == "-" || e.newProto then m
-      else
-        match splitEvId id with
-        | none => m.fail "C08: malformed event id on the wire"
-        | some (t, i) =>
-          -- the stream an exchange serves: fixed by the Last-Event-ID header, else by its first event id
-          let e := if e.stream.isNone then { e with stream := some t } else e
-          let m := if e.stream != some t then m.fail "C08: event id names another stream than the one this exchange serves" else m
-          let m := if i != e.from + e.nsent then
-              m.fail (if i < e.from + e.nsent then "C08: event id repeated or reordered (not the next index after the resume point)"
-                      else "C08: gap in event ids (an index after the resume point was skipped)") else m
-          let log := m.log e.sess t
-          let m := match log[i]? with
-            | none => m.fail "C08: delivered event has no entry at that index of the ground-truth append log"
-            | some q => if q == p then m else m.fail "C08: delivered payload differs from what was appended at that index"
-          let m := match m.idmap.lookup (e.sess, id) with
-            | none => { m with idmap := m.idmap ++ [((e.sess, id), p)] }
-            | some q => if q == p then m else m.fail "C08: the same event id denotes different payloads on different deliveries"
-          let e := { e with nsent := e.nsent + 1, nrecv := if lost then e.nrecv else e.nrecv + 1, failing := e.failing || lost }
-          m.putEx e
-    | _ => m.fail "C10: unparsable event token"
+/-- `x3+<event>` (delivered) / `x3!<event>` (written into a failing writer) -/
+def parseSent (t : String) : Option (Mon.Sent String) :=
+  if !t.startsWith "x" then none else
+  match t.splitOn "+", t.splitOn "!" with
+  | xk :: ev :: more, _ =>
+    if !xk.contains '!' then some { k := parseX xk, lost := false, out := parseOut ("+".intercalate (ev :: more)) }
+    else match t.splitOn "!" with
+      | xk :: ev :: more => some { k := parseX xk, lost := true, out := parseOut ("!".intercalate (ev :: more)) }
+      | _ => none
+  | _, xk :: ev :: more => some { k := parseX xk, lost := true, out := parseOut ("!".intercalate (ev :: more)) }
+  | _, _ => none
 
-/-- snapshot row `t2:x3:o:4:1,2:s[:L]` -/
-structure SnapRow where
-  t : String
-  att : Option Nat
-  opn : Bool
-  last : Int
-  sse : Bool
-
-def parseSnap (tok : String) : Option (String × List SnapRow × Bool) :=
-  -- S<name>[rows|reqs]D?
+/-- snapshot `S<name>[t2:x3:o:4:1,2:s[:L];…|reqs]D?` -/
+def parseSnap (tok : String) : Option (String × List Mon.Row) :=
   if !tok.startsWith "S" then none else
   match tok.splitOn "[" with
   | [nm, rest] =>
     let name := (nm.drop 1).toString
-    let done := rest.endsWith "D"
     match rest.splitOn "|" with
     | rowsTxt :: _ =>
       let rows := (rowsTxt.splitOn ";").filterMap fun r =>
         match r.splitOn ":" with
         | t :: att :: op :: last :: _ :: js :: _ =>
-          some { t := t, att := if att.startsWith "x" then some (parseX att) else none, opn := op == "o",
-                 last := last.toInt?.getD (-1), sse := js == "s" : SnapRow }
+          (parseT t).map fun n =>
+            ({ t := n, att := if att.startsWith "x" then some (parseX att) else none, opn := op == "o",
+               next := (last.toInt?.getD (-1) + 1).toNat, sse := js == "s" } : Mon.Row)
         | _ => none
-      some (name, rows, done)
+      some (name, rows)
     | _ => none
   | _ => none
 
-/-- Evaluate the monitors on one record of the implementation. -/
-def Mon.onRecord (m : Mon) (d : DState) (toks : List String) (impl : String) : Mon :=
-  Id.run do
-    let store := d.store
-    let jsonMode := d.jsonM
-    let mut m : Mon := { m with viol := none, exs := m.exs.map fun e => { e with fresh := false } }
-    let itoks := words impl
-    -- what does the op say about the exchange it opens?
-    let opSess : String := (toks[1]?).getD ""
-    let newIds : List Nat := match toks.head? with
-      | some "init" | some "listen" => ((kvGet toks "id").bind String.toNat?).toList
-      | some "call" => parseIds (kvGet toks "ids")
-      | _ => []
-    let getSessName : Option String := match toks.head? with
-      | some "get" => toks[1]?
-      | some "racewg" | some "racegw" => (toks.dropWhile (· != "|"))[1]?
-      | _ => none
-    let getLast : Option String := match toks.head? with
-      | some "get" => kvGet toks "last"
-      | some "racewg" | some "racegw" => kvGet (toks.dropWhile (· != "|")) "last"
-      | _ => none
-    -- pass 1: opened exchanges
-    for t in itoks do
-      if t.startsWith "x" && (t.splitOn ":").length == 2 && !t.contains '+' && !t.contains '!' then
+def parseHdrObs (l : Option String) : Mon.ObsHdr :=
+  match l with
+  | none => .absent
+  | some "none" => .absent
+  | some l => match splitEvId l with
+    | some (t, i) => match parseT t with
+      | some n => .ok n i
+      | none => .bad
+    | none => .bad
+
+/-- what the op says about the exchange it opens -/
+def originOf (toks : List String) : String × Mon.Origin :=
+  let np := kvGet toks "hv" == some "d"
+  let opSess := (toks[1]?).getD ""
+  match toks.head? with
+  | some "init" => (opSess, .post ((kvGet toks "id").bind String.toNat?).toList false np)
+  | some "listen" => (opSess, .post ((kvGet toks "id").bind String.toNat?).toList true true)
+  | some "call" => (opSess, .post (parseIds (kvGet toks "ids")) false np)
+  | some "get" => (opSess, .get (parseHdrObs (kvGet toks "last")) np)
+  | some "racewg" | some "racegw" =>
+    let g := toks.dropWhile (· != "|")
+    ((g[1]?).getD opSess, .get (parseHdrObs (kvGet g "last")) np)
+  | _ => (opSess, .post [] false np)
+
+/-- the implementation's observation of one record, typed -/
+def parseObs (d : DState) (toks : List String) (impl : String) : Mon.Obs String String :=
+  let itoks := words impl
+  let (sess, origin) := originOf toks
+  { sess := sess, origin := origin,
+    opened := itoks.filterMap fun t =>
+      if t.startsWith "x" && !t.contains '+' && !t.contains '!' then
         match t.splitOn ":" with
-        | [xk, kind] =>
-          let k := parseX xk
-          let isGet := getSessName.isSome
-          let (stream, frm) : Option String × Nat := match getLast with
-            | none => (if isGet then some "t0" else none, 0)
-            | some "none" => (some "t0", 0)
-            | some l => match splitEvId l with
-              | some (t, i) => (some t, i + 1)
-              | none => (none, 0)
-          let e : MExch := { k := k, sess := (getSessName.getD opSess), ids := newIds, isGet := isGet,
-                             isListen := toks.head? == some "listen", stream := stream, «from» := frm, sse := kind == "sse",
-                             newProto := toks.head? == some "listen" || kvGet toks "hv" == some "d" }
-          m := m.putEx e
-        | _ => pure ()
-    -- pass 2: snapshot of the session tells which stream a fresh POST exchange serves
-    for t in itoks do
-      match parseSnap t with
-      | some (name, rows, _) =>
-        for r in rows do
-          match r.att with
-          | some k => match m.getEx k with
-            | some e =>
-              if e.fresh && !e.isGet && e.sess == name then
-                m := m.putEx { e with stream := some r.t }
-                if (m.posts.lookup (name, r.t)).isNone then m := { m with posts := m.posts ++ [((name, r.t), k)] }
-            | none => pure ()
-          | none => pure ()
-      | none => pure ()
-    -- pass 2b: a fresh POST exchange names its stream in its first event id; with a store, a stream that
-    -- receives its first append in this record was created by this record's POST
-    for t in itoks do
-      if t.startsWith "x" && t.contains '/' then
-        let sep := if t.contains '+' then "+" else "!"
-        match t.splitOn sep with
-        | xk :: ev :: _ =>
-          match m.getEx (parseX xk), (ev.splitOn "/") with
-          | some e, _ :: id :: _ =>
-            if e.fresh && !e.isGet && e.stream.isNone then
-              match splitEvId id with
-              | some (st, _) =>
-                m := m.putEx { e with stream := some st }
-                if (m.posts.lookup (e.sess, st)).isNone then m := { m with posts := m.posts ++ [((e.sess, st), e.k)] }
-              | none => pure ()
-          | _, _ => pure ()
-        | _ => pure ()
-    for t in itoks do
+        | [xk, kind] => some (parseX xk, kind == "sse")
+        | _ => none
+      else none,
+    appends := itoks.filterMap fun t =>
       match t.splitOn ":" with
-      | "a" :: sess :: stream :: _ =>
-        if stream != "t0" && (m.logs.lookup (sess, stream)).isNone && (m.posts.lookup (sess, stream)).isNone then
-          match m.exs.find? (fun e => e.fresh && !e.isGet && e.sess == sess && !e.ids.isEmpty) with
-          | some e =>
-            m := m.putEx { e with stream := some stream }
-            m := { m with posts := m.posts ++ [((sess, stream), e.k)] }
-          | none => pure ()
-      | _ => pure ()
-    -- pass 3: appends (ground truth) with their store-level routing check
-    for t in itoks do
-      match t.splitOn ":" with
-      | "a" :: sess :: stream :: rest =>
+      | "a" :: s :: stream :: rest =>
         let p := ":".intercalate rest
-        -- a POST exchange of a session with a store: the first append may precede the snapshot; learn the creator from `fresh`
-        m := m.append sess stream p
-        if p != "-" && sess != "q" then
-          match routeOK m jsonMode (provOf p) sess (some stream) none with
-          | some c => m := m.fail ("C10: (store) " ++ (c.drop 5).toString)
-          | none => pure ()
-      | _ => pure ()
-    -- pass 4: events
-    for t in itoks do
-      if t.startsWith "x" then
-        match (t.splitOn "+"), (t.splitOn "!") with
-        | xk :: ev :: more, _ => if !xk.contains '!' then m := m.onEvent store jsonMode (parseX xk) false ("+".intercalate (ev :: more))
-                                 else match t.splitOn "!" with
-                                   | xk :: ev :: more => m := m.onEvent store jsonMode (parseX xk) true ("!".intercalate (ev :: more))
-                                   | _ => pure ()
-        | _, xk :: ev :: more => m := m.onEvent store jsonMode (parseX xk) true ("!".intercalate (ev :: more))
-        | _, _ => pure ()
-    -- pass 4b: a response that the handler produced must not vanish
-    match toks with
+        (parseT stream).map fun n => ({ sess := s, stream := n, p := if p == "-" then none else some p, check := s != "q" } : Mon.Append String String)
+      | _ => none,
+    sent := itoks.filterMap parseSent,
+    snaps := itoks.filterMap fun t =>
+      (parseSnap t).map fun (name, rows) =>
+        ({ sess := name, newProto := ((getSess d name).map (·.newProto)).getD false, rows := rows } : Mon.Snap String) }
+
+def DMon.init (store jsonMode : Bool) : DMon := { core := { store := store, jsonMode := jsonMode } }
+
+/-- Evaluate the monitors on one record of the implementation: the typed core, plus two checks that relate
+the *operation* to the observation (a response the handler produced must not vanish). -/
+def DMon.onRecord (m : DMon) (d : DState) (toks : List String) (impl : String) : DMon × Mon.Viol :=
+  let itoks := words impl
+  let r := Mon.step provOf m.core (parseObs d toks impl)
+  let m : DMon := { m with core := r.1 }
+  let (m, extra) : DMon × Option String := match toks with
     | "init" :: _ :: _ =>
       let id := (kvGet toks "id").getD "0"
       if !(itoks.any fun t => t.endsWith s!"/R.{id}.init" || t.endsWith s!",R.{id}.init") then
-        m := m.fail "C10: the initialize response was not written to the exchange of its request"
+        (m, some "C10: the initialize response was not written to the exchange of its request")
+      else (m, none)
     | ["resp", n, r, x] =>
-      if store && n.startsWith "s" && !m.gone.contains n then
+      if d.store && n.startsWith "s" && !m.gone.contains n then
         let p := ".".intercalate ["R", r, n, r, x]
         if !(itoks.any fun t => t.startsWith s!"a:{n}:" && t.endsWith (":" ++ p)) then
-          m := m.fail "C10: a response produced by the handler reached neither an exchange nor the store (lost)"
-    | ["delete", n] => m := { m with gone := m.gone ++ [n] }
-    | ["kill", n] => m := { m with gone := m.gone ++ [n] }
-    | _ => pure ()
-    -- pass 5: quiescent-state checks (C08 only with a store, protocol < 2026-07-28)
-    if store then
-      -- (a) a resume must replay everything after Last-Event-ID
-      for e in m.exs do
-        if e.fresh && e.isGet && e.sse && !e.failing then
-          match e.stream with
-          | some t =>
-            let n := (m.log e.sess t).length
-            if e.from ≤ n && e.from + e.nrecv != n then
-              m := m.fail "C08: the resume did not deliver every stored message after Last-Event-ID (lost, or duplicated)"
-          | none => pure ()
-      -- (b) attached and open SSE streams: lastIdx is the last store index; a healthy exchange has received everything
-      for t in itoks do
-        match parseSnap t with
-        | some (name, rows, _) =>
-          let newp := ((getSess d name).map (·.newProto)).getD false
-          if !newp then
-            for r in rows do
-              match r.att with
-              | some k =>
-                if r.opn && r.sse then
-                  let n := (m.log name r.t).length
-                  if r.last + 1 != (n : Int) then
-                    m := m.fail "C08: lastIdx of an attached stream is not the index of the last stored event"
-                  match m.getEx k with
-                  | some e => if !e.failing && e.sess == name && e.from + e.nrecv != n then
-                      m := m.fail "C08: an attached, healthy exchange has not received every message written to its stream"
-                  | none => pure ()
-              | none => pure ()
-        | none => pure ()
-    return m
+          (m, some "C10: a response produced by the handler reached neither an exchange nor the store (lost)")
+        else (m, none)
+      else (m, none)
+    | ["delete", n] => ({ m with gone := m.gone ++ [n] }, none)
+    | ["kill", n] => ({ m with gone := m.gone ++ [n] }, none)
+    | _ => (m, none)
+  ({ m with extra10 := extra }, r.2)
 
 /-! ## engine -/
-
-def restrictTo (p : String) (v : Option String) : Option String :=
-  match v with
-  | none => none
-  | some c => if p == "" || c.startsWith p then some c else none
 
 def engine (prop : String) : Engine DState where
   init := {}
@@ -819,7 +624,7 @@ def engine (prop : String) : Engine DState where
     | ["reset"] => ({}, { model := "ok" })
     | ["endcase"] => (d, { model := "ok" })
     | ["cfg", mode, resp, st] =>
-      let d : DState := { store := st == "store", jsonM := resp == "json" }
+      let d : DState := { store := st == "store", jsonM := resp == "json", mon := DMon.init (st == "store") (resp == "json") }
       ({ d with cfg := some (mkCfg d (mode == "stateless")) }, { model := "ok" })
     | _ =>
       if d.cfg.isNone then (d, { model := "nocfg" }) else
@@ -835,10 +640,14 @@ def engine (prop : String) : Engine DState where
           let (pre, post) := ws.span (fun t => !t.startsWith "S")
           " ".intercalate (pre ++ endTxt ++ post)
         let model := body ++ o.tail
-        let m := d.mon.onRecord dn toks impl
+        let (m, v) := d.mon.onRecord dn toks impl
+        -- first violated clause of the requested property: typed core, then the op-level clause
+        let v08 := v.v08.map Mon.Clause08.text
+        let v10 := (v.v10.map Mon.Clause10.text).orElse fun _ => m.extra10
+        let mviol := if prop == "C08" then v08 else if prop == "C10" then v10 else v10.orElse fun _ => v08
         let crashed := impl.startsWith "panic" || (words impl).contains "w=panic" || (impl.splitOn "PANIC").length > 1
         let viol := if crashed then some ((if prop == "" then "C08" else prop) ++ ": the server panicked while handling this operation")
-                    else restrictTo prop m.viol
+                    else mviol
         ({ dn with mon := m }, { model := model, violated := viol })
 
 end Resume
